@@ -178,7 +178,51 @@ def run_cases_in_coq(exec_module, case_terms, work, tag, shard=250, prelude=""):
 
 
 # ------------------------------------------------------------------- Go side
-def make_overlay(work, extra=None):
+# which hook files (under tools/hooks) each harness family file needs; a restricted build overlays
+# only those and replaces the other family files by an empty stub, so that a change to the code
+# under verification that breaks the compilation of one hook file raises an alarm only in the
+# checks that need that hook
+FAMILY_HOOKS = {
+    ("hv", "ring.go"): [], ("hv", "deliver.go"): [], ("hv", "clusternet.go"): [],
+    ("hv", "proc.go"): ["actor/hooks.go"], ("hv", "events.go"): ["actor/hooks.go"],
+    ("hv", "corner09.go"): ["actor/hooks.go"], ("hv", "registry.go"): ["actor/hooks.go", "actor/registry_hooks.go"],
+    ("hv", "response.go"): ["actor/hooks.go"], ("hv", "tree.go"): ["actor/hooks.go", "actor/tree.go"],
+    ("hv", "wire.go"): ["remote/hooks.go", "remote/buf.go"],
+    ("hv", "peer.go"): ["actor/hooks.go", "remote/hooks.go", "remote/buf.go", "remote/remote17.go", "actor/remote17.go"],
+    ("hv", "cluster.go"): ["cluster/hooks.go"],
+    ("hvs", "inbox.go"): ["actor/hooks.go"], ("hvs", "procsched.go"): ["actor/hooks.go"],
+    ("hvs", "registry.go"): ["actor/hooks.go", "actor/registry_hooks.go"], ("hvs", "ring.go"): ["ringbuffer/ringconc.go"],
+}
+KEEP_ALWAYS = ("main.go", "shared.go")
+# harness family name -> the source file of cmd/<binary>/ that implements it
+FAMILY_FILE = {"ring": "ring.go", "proc": "proc.go", "deliver": "deliver.go", "wire15": "wire.go", "wire16": "wire.go",
+               "peer16": "peer.go", "agent18": "cluster.go", "provider20": "cluster.go", "cluster19": "clusternet.go",
+               "events12": "events.go", "undeliv09": "events.go", "corner09": "corner09.go", "respawn": "registry.go",
+               "reqresp": "response.go", "reqstorm": "response.go", "reqboundary": "response.go", "reqcollide": "response.go",
+               "tree08": "tree.go", "inboxsched": "inbox.go", "procsched": "procsched.go", "regsched": "registry.go",
+               "ringsched": "ring.go"}
+
+
+def restricted_overlay(binary, fams):
+    """(stub replacements for the family files not needed, hook files needed) or (None, None) for a full build"""
+    if not fams:
+        return None, None
+    src = os.path.join(HARNESS, "cmd", binary)
+    stub = os.path.join(VERIF, "tools", "stub.go")
+    repl, hooks = {}, set()
+    for f in sorted(os.listdir(src)):
+        if not f.endswith(".go") or f in KEEP_ALWAYS:
+            continue
+        if f in fams:
+            if (binary, f) not in FAMILY_HOOKS:
+                return None, None          # unknown family: build everything
+            hooks.update(FAMILY_HOOKS[(binary, f)])
+        else:
+            repl[os.path.join(src, f)] = stub
+    return repl, hooks
+
+
+def make_overlay(work, extra=None, only_hooks=None):
     """overlay.json: hook files of /verif/tools/hooks/<pkg>/*.go appear in
     REPO/<pkg>/zz_verif_<name>; nothing is written into the repository"""
     repl = {}
@@ -187,6 +231,8 @@ def make_overlay(work, extra=None):
         for f in files:
             if f.endswith(".go"):
                 rel = os.path.relpath(root, hooks)
+                if only_hooks is not None and os.path.join(rel, f) not in only_hooks:
+                    continue
                 repl[os.path.join(REPO, rel, "zz_verif_" + f)] = os.path.join(root, f)
     if extra:
         repl.update(extra)
@@ -232,10 +278,11 @@ def shim_overlay(work):
     return repl
 
 
-def build_harness(work, binary="hv", tags="verif", extra_overlay=None):
+def build_harness(work, binary="hv", tags="verif", extra_overlay=None, fams=None):
     """build the harness against the current working tree of REPO.  The
     module file is generated (replace => REPO) so that nothing under /verif
-    or REPO is modified by a build."""
+    or REPO is modified by a build.  With fams (family file names) only those
+    families and the hook files they need are part of the build."""
     modsrc = open(os.path.join(HARNESS, "go.mod")).read().replace("=> /repo", "=> " + REPO)
     modfile = work.path("go.mod")
     open(modfile, "w").write(modsrc)
@@ -246,7 +293,10 @@ def build_harness(work, binary="hv", tags="verif", extra_overlay=None):
             extra_overlay = dict(extra_overlay or {}, **shim_overlay(work))
         except RuntimeError as e:
             return None, str(e)
-    overlay = make_overlay(work, extra_overlay)
+    stubs, hooks = restricted_overlay(binary, fams)
+    if stubs is not None:
+        extra_overlay = dict(extra_overlay or {}, **stubs)
+    overlay = make_overlay(work, extra_overlay, only_hooks=hooks)
     cmd = ["go", "build", "-modfile", modfile, "-tags", tags, "-overlay", overlay,
            "-o", out_bin, "./cmd/" + binary]
     rc, out = sh(cmd, cwd=HARNESS, env=dict(GOENV), timeout=900)
